@@ -29,6 +29,17 @@ def run_check(tier, seed):
     rng = random.Random(seed)
     # well-formed requests only (the property quantifies over field valuations), comfortable capacity
     cases = [c for c in S.gen_cases(rng, n, frac_malformed=0.0, cap=1 << 17) if c['wf']]
+    # requests near the size limits: full max_write (1 MiB) payloads and the largest request the transport buffer holds
+    big = []
+    for pl in ((1 << 20) - 81, (1 << 20) - 80, (1 << 20) - 79, 1 << 20, (1 << 20) + 4096 - 80):
+        q = S.gen_big_write(rng, pl)
+        big.append(S.make_case(rng, 0, q['bytes'], q['fs'], q, transport='fusedev', cap=1 << 17, minor=None, vu=False))
+    if tier == 'thorough':
+        for pl in ((1 << 20) - 81, 1 << 20, (1 << 20) + 4096 - 80):
+            q = S.gen_big_write(rng, pl)
+            big.append(S.make_case(rng, 0, q['bytes'], q['fs'], q, transport='virtio', cap=1 << 17, minor=None, vu=False))
+    for i, c in enumerate(big): c['id'] = 10 ** 6 + i
+    cases += big
     for c in cases:
         if c['remap'] == 'fail': c['remap'] = (rng.getrandbits(32), rng.getrandbits(32))
         if c['wf']['op'] in (48, 49): c['vu'] = True
@@ -69,3 +80,6 @@ def run_check(tier, seed):
     ev.cov['input_distribution'] = dict(hist)
     ev.cov['samples'] = [S.case_json(c, obs.get(c['id'])) for c in cases[:3]]
     return finish(ev, PROP, findings, broken)
+
+def replay(path):
+    return S.replay(PROP, path)
